@@ -223,6 +223,12 @@ def _catalogue():
         np.hstack([te, te + 4]),
         np.concatenate([td, td + 2]),
     )
+    # two tetrahedra glued along a face (multitrace style): the three junction edges have three neighbours each
+    C["gluedtets"] = _mk(
+        [[0.0, 0.02, -0.01], [1.05, 0.03, 0.04], [0.31, 0.98, 0.02], [0.37, 0.29, 0.91], [0.52, 0.41, -0.83]],
+        [[0, 1, 3], [1, 2, 3], [2, 0, 3], [0, 2, 1], [0, 4, 1], [1, 4, 2], [2, 4, 0]],
+        [3, 1, 1, 2, 3, 3, 1],
+    )
     ov, oe, od = C["octa"]
     # nested: octa (outward) containing a small tet with reversed orientation (normals point into the tet)
     sv = 0.25 * (tv - tv.mean(axis=1, keepdims=True)) + np.array([[0.02], [0.03], [-0.01]])
